@@ -118,3 +118,18 @@ example : ∃ g, hydrate exW = .ok g ∧ g.mio = specMio exW := by
   obtain ⟨g, h, _, m, _⟩ := C03_graph exW exW_valid
   exact ⟨g, h, m⟩
 end Pgs.AST
+
+/-! ### the extendee lists the extension back -/
+namespace Pgs.AST
+
+/-- **C03 (applied extensions)**: on a valid request the extensions a message lists are exactly the
+    extensions of the request whose extendee names that message, in registration order. -/
+theorem C03_applied (w : World) (hv : Valid w) (g : Graph) (hg : hydrate w = .ok g) (m : Ref) :
+    (g.extendees.filter (·.2 == m)).map (·.1) =
+      ((allExts 0 w.files).filter (fun x => declaredAs w x.2.extendee .msg == m)).map (·.1) := by
+  obtain ⟨g', hg', _, _, he⟩ := C03_graph w hv
+  rw [hg] at hg'; cases hg'
+  rw [he, List.filter_map, List.map_map]
+  rfl
+
+end Pgs.AST
